@@ -617,6 +617,8 @@ class Explorer:
                 pos = v.name in ('Some', 'Ok')
                 want = name.endswith(('is_some', 'is_ok'))
                 return I(int(pos == want))
+            if self.trace and isinstance(v, U) and v.tag:
+                return sym('%s(%s)' % (name.rsplit('::', 1)[-1], v.tag))
             return TOP
         return None
 
@@ -1087,7 +1089,7 @@ class Explorer:
             return
         if self.trace:
             ats = [tag_of(a) for a in args]
-            ats = [x for x in ats if x and x.startswith('call:')]
+            ats = [x for x in ats if x]
             tg = 'call:%s@%s' % (name.rsplit('::', 1)[-1], t[5])
             if ats and sum(len(x) for x in ats) < 400:
                 tg += '(%s)' % ','.join(ats)
